@@ -1,5 +1,7 @@
 (* C05 -- Collection is bounded and spends its budget breadth-first. *)
 From Deep Require Import Base Config Collector CollectorProofs.
+From DeepGen Require Import PCollect.
+From Deep Require Import TieCollect.
 From Coq Require Import Sorted.
 
 (* Budget: a whole snapshot (all frames, then all watches / log fields / captures, one cache)
@@ -104,3 +106,15 @@ Theorem C05_lifo_refuted :
   map snd (log (run 20 true lifo_cfg lifo_heap (init [] [] LOCALS 0))) = [0; 1; 1; 1]%nat.
 Proof. vm_compute. split; reflexivity. Qed.
 Print Assumptions C05_lifo_refuted.
+
+(* ---- tie by translation: truncate_string and VariableSetProcessor.check_var_count as they are in /repo/src NOW *)
+Theorem C05_the_code_cuts_at_the_limit :
+  forall s n, let '(v, tr) := gen_truncate_string s (Z.of_nat n) in
+  v = firstn n s /\ (length v <= n)%nat /\ (tr = true <-> (n < length s)%nat).
+Proof. exact code_cut. Qed.
+Print Assumptions C05_the_code_cuts_at_the_limit.
+
+Theorem C05_the_code_budget_test_is_the_model :
+  forall size mv, gen_check_var_count (Z.of_nat size) (Z.of_nat mv) = negb (mv <? size)%nat.
+Proof. exact tie_check_var_count. Qed.
+Print Assumptions C05_the_code_budget_test_is_the_model.
